@@ -54,11 +54,12 @@ class Ctx:
         self.rule_docs = {}
 
     # ---- recording
-    def ob(self, rule, fn, node, ok, detail, chain=None):
-        """ok: True discharged, False violated (definite), None undecided."""
+    def ob(self, rule, fn, node, ok, detail, chain=None, key=None):
+        """ok: True discharged, False violated (definite), None undecided. `key`: a spelling-independent name of the construct
+        (used as its identity instead of the source text; the position still comes from `node`)."""
         fi = self.p.functions.get(fn) if isinstance(fn, str) else fn
         fq = fi.qualname if fi is not None else str(fn)
-        text = node if isinstance(node, str) else norm_text(node)
+        text = key if key is not None else (node if isinstance(node, str) else norm_text(node))
         text = ' '.join(text.split())[:160]
         status = 'discharged' if ok is True else ('violated' if ok is False else 'undecided')
         line = getattr(node, 'lineno', None) if not isinstance(node, str) else None
